@@ -8,6 +8,32 @@ ALL = ['C%02d' % i for i in range(1, 21)]
 NA = {
     'C17': 'pure function of its inputs (key, token): no schedule, clock, fault, peer or interleaving it could depend on, so deterministic simulation has nothing to decide (DESIGN.md section 9); the C05 device model does verify every handshake signature and decode the offered public key on the way',
 }
+TEXT = {
+ 'C01': 'seeded exploration of device output chunkings x read fragmentations x decode modes x sync/async against the real library; results compared with the device model\'s ground truth. Sampling, not proof: right level because the input space (byte strings x partitions x fragmentations) is unbounded and the failure modes are boundary arithmetic.',
+ 'C02': 'every byte the host writes in any simulated session is parsed by an independent decoder on the peer side; dedicated sessions push ids, sizes and checksums to their 32-bit / 1 MiB extremes. Exploration; the pure pack/unpack clause is only exercised at the values sessions produce.',
+ 'C03': 'differential exploration: each session with whole-buffer and with fragmented delivery (results, host packets, over-read monitor), plus single byte/bit/command-word corruption at a seeded packet with the documented exception demanded.',
+ 'C04': 'device-side protocol monitor (one state machine per local id, aware of which device packets the host has read) over seeded sessions of all stream operations against a stop-and-wait adbd model.',
+ 'C05': 'seeded handshake histories against an adbd auth model that verifies each signature as adbd does (pure-integer RSASSA-PKCS1-v1_5 / SHA-1 check) and a reference model of the state machine; all three shipped signers are real.',
+ 'C06': 'seeded search over thread schedules (baton-passed real threads, lock/IO yield points, line-level pre-emption, PCT and dense policies) and asyncio task interleavings, combined with the device adversary\'s packet ordering; K1 is classified by exact signature as a known finding, anything else is a violation.',
+ 'C07': 'seeded pushes (file / BytesIO / real directory with decoys in another cwd) x maxdata x exact-fit sizes x callbacks; the device\'s sync service decodes what arrives; differential with/without callback.',
+ 'C08': 'seeded pulls x DATA record sizes x WRTE cut policies (incl. inside sync headers) x fragmentations x destinations x callbacks; differential with/without callback; stream-closure and one-RECV checks.',
+ 'C09': 'seeded list/stat replies with 32-bit extreme fields, arbitrary name bytes and every packetisation; compared with the device filesystem.',
+ 'C10': 'seeded device-side failures at every point of pull and push with both FAIL/OKAY orderings and delayed FAILs, reasons incl. empty and non-UTF-8, invalid status records.',
+ 'C11': 'fault enumeration: operation x await point (packet index of the probe run) x stall kind x timeout grid on the virtual clock; oracle = timeout-type error within a bound derived from the loop structure, plus effective-timeout ordering on every transport call.',
+ 'C12': 'fault enumeration: two (thorough: four) fixed scenarios x every transport call index x every fault kind, sync and async, plus seeded scenarios and fault pairs; after the failure: lock states, close(), connect() to a healthy session, full replay compared with ground truth.',
+ 'C13': 'seeded sequences (<= 6 steps) over connect-ok / five connect-failure kinds / close / every operation against a two-state model; not-connected operations must not touch the transport or the filesystem.',
+ 'C14': 'seeded schedules with opcode-level pre-emption inside id allocation (threads), task interleavings and sequential wrap-around with the counter preset near 0 and 2^32; oracle on the OPEN packets seen by the device.',
+ 'C15': 'differential: unlimited vs seeded per-call write capacity (incl. 0 and a stuck transport), in memory and through the real TCP transports on a simulated kernel socket / asyncio transport with small buffers and a slow reader.',
+ 'C16': 'differential: every single-actor scenario family (incl. stalls, transport faults with recovery, corruption, short writes, handshakes, TCP) through AdbDevice and AdbDeviceAsync from the same seed; packets, results, exception types and transport call sequences must coincide.',
+ 'C18': 'the real TcpTransport / TcpTransportAsync (real asyncio streams, async_timeout) on a model of the kernel endpoint: seeded transport scripts against a raw peer and whole sessions compared with the in-memory transport.',
+ 'C19': 'model-based: seeded store operation histories against an executable reference model (any matching pair accepted for wildcard lookups, put(CLSE) on a missing pair unspecified), a complete sweep of short histories on the small domains, and the same shadow model inside every concurrent simulation.',
+ 'C20': 'fault enumeration on a fake usb1: two fixed sessions x every backend call index x six libusb errors, seeded sessions and transport scripts; endpoint / interface / length / millisecond-timeout checks on every backend call.',
+}
+NOTE = {
+ 'C18': 'the kernel endpoint and asyncio.Transport are models (validated against the loopback stack by ./check selftest-sockmodel, outside the registered checks); the transports, asyncio streams and async_timeout are real',
+ 'C20': 'libusb is a fake module implementing its documented contract; UsbTransport/AdbDeviceUsb are real',
+ 'C06': 'pre-emption at line granularity inside adb_shell files (opcode granularity in _open for C14); asyncio interleavings are those FIFO scheduling allows; known finding K1 is matched by signature only',
+}
 BASELINE = 'cd /repo && /venv/bin/python -m pytest -ra -q -p no:cacheprovider --timeout=900 --continue-on-collection-errors'
 
 
@@ -30,8 +56,8 @@ def main():
             'evidence_file': 'evidence/%s.json' % pid,
             'replay_cmd_template': './check %s --replay {path}' % pid,
             'engine': 'simadb',
-            'level_claimed': {'category': mod.LEVEL, 'text': getattr(mod, 'LEVEL_TEXT', mod.__doc__ or ''), 'design_ref': 'DESIGN.md section 7 (%s)' % pid},
-            'level_note': getattr(mod, 'LEVEL_NOTE', 'trusted base: the simulator (device model, wire, clock, scheduler) written for this task; samples, does not enumerate'),
+            'level_claimed': {'category': mod.LEVEL, 'text': TEXT.get(pid, mod.__doc__ or ''), 'design_ref': 'DESIGN.md sections 7 (%s) and 13' % pid},
+            'level_note': NOTE.get(pid, 'trusted base: the simulator written for this task (adbd model, wire, virtual clock, schedulers) and its independent codec; the search samples seeds, it does not enumerate; determinism is self-tested (./check selftest-determinism)'),
             'technique': getattr(mod, 'TECHNIQUE', 'deterministic simulation with fault injection (seeded search over schedules, device behaviours and fault sequences)'),
         })
     man = {
